@@ -1,5 +1,5 @@
 (* C06 -- Face3D plane / normal / right-hand-rule contract.  Theorems only. *)
-From LBG Require Import Base QGeom ListCyc G0_vec G1_shapes G2_inter G3_poly G4_face C02_kernels C01_area C06_plane C06_face.
+From LBG Require Import Base QGeom ListCyc G0_vec G1_shapes G2_inter G3_poly G4_face C02_kernels C01_area C06_plane C06_face C06_planefit.
 Open Scope Q_scope.
 
 (* Plane(n, o): orthonormal right-handed frame, both branches of the "normal is +-Z" test *)
@@ -61,6 +61,25 @@ Proof. exact flip_contract. Qed.
 Print Assumptions C06_flip.
 
 (* non-vacuity: the XY plane and a tilted rational plane satisfy frame_ok *)
+(* ---- faces built WITHOUT a plane: Face3D._plane_from_vertices (generated from the source) ---------------------------------------
+   the three numbers accumulated over the triangle fan about the first vertex are the components of the area (Newell) vector of the
+   whole loop, for every vertex count and every loop (planar or not, first corners collinear or re-entrant or not) *)
+Theorem C06_planeless_face_is_fitted_to_the_area_vector : forall qsqrt v0 l,
+  exists n0 n1 n2, mkV3 n0 n1 n2 =3= newell (v0 :: l) /\
+    Face3D_plane_from_vertices qsqrt (v0 :: l) = Plane_init qsqrt (normal_of qsqrt n0 n1 n2) v0.
+Proof. exact plane_from_vertices_uses_newell. Qed.
+Print Assumptions C06_planeless_face_is_fitted_to_the_area_vector.
+
+Theorem C06_area_vector_is_start_vertex_independent : forall x l, newell (x :: l) =3= newell (l ++ [x]).
+Proof. exact newell_start_vertex. Qed.
+Print Assumptions C06_area_vector_is_start_vertex_independent.
+
+(* a quadrilateral whose first three vertices are collinear (a triangle with a vertex in the middle of a side), in the XZ plane *)
+Example C06_collinear_first_corner :
+  pl_n (Face3D_plane_from_vertices qsqrt_exec [mkV3 0 0 0; mkV3 1 0 0; mkV3 2 0 0; mkV3 1 0 2]) =3= mkV3 0 (-1) 0 /\
+  pl_n (Face3D_plane_from_vertices qsqrt_exec [mkV3 1 0 2; mkV3 0 0 0; mkV3 1 0 0; mkV3 2 0 0]) =3= mkV3 0 (-1) 0.
+Proof. vm_compute. repeat split; reflexivity. Qed.
+
 Example C06_frames_exist :
   frame_ok (mkPlane (mkV3 0 0 1) (mkV3 1 2 3) 3 (mkV3 1 0 0) (mkV3 0 1 0)) /\
   frame_ok (mkPlane (mkV3 (2#3) (1#3) (2#3)) (mkV3 0 0 0) 0 (mkV3 (1#3) (2#3) (-2#3)) (mkV3 (-2#3) (2#3) (1#3))).
